@@ -30,7 +30,7 @@ ASSUMPTIONS = ['refjs (recursive-descent ES5.1 front end written from ECMA-262 5
                'early errors are not checked by either side; FunctionDeclaration is admitted as a Statement; '
                'Annex B forms and escaped identifiers are counted oracle_uncertain, never violations']
 BUDGET_S = {'quick': 75, 'thorough': 900}
-REQUIRED_HITS = ['parse', 'refjs', 'production_reduced', 'parser_variant', 'multiline_token']
+REQUIRED_HITS = ['parse', 'refjs', 'production_reduced', 'parser_variant', 'multiline_token', 'string_escape']
 FLOOR = {'quick': 5000, 'thorough': 60000}
 
 ALPHABET = ['a', '1', "'s'", '/', '(', ')', '{', '}', '[', ']', ';', ',', ':', '?', '.', '=', '+', '++',
@@ -298,6 +298,11 @@ def run(ctx):
             for text in work.multiline_token_texts():
                 check_text(ctx, text, 'multiline_token', 9, 8)
                 ctx.hit('multiline_token')
+        # a backslash in a string literal followed by every ASCII character and a selection of others
+        for idx, text in enumerate(work.string_escape_texts()):
+            if idx % ctx.nshards == ctx.shard:
+                check_text(ctx, text, 'string_escape', 5, 4)
+                ctx.hit('string_escape')
 
         def opts_fn(i, rng):
             return jsgen.Opts(clean=(i % 3 != 0), unicode_idents=(i % 5 == 0),
